@@ -400,7 +400,8 @@ def cfg_dir():
 
 
 def generate_and_replay(module, name, constants, exe, exe_args=("replay",), invariants=(), properties=(),
-                        workers=4, timeout=900, heap="4g", spec="Spec", emit="Emit", coverage=False):
+                        workers=4, timeout=900, heap="4g", spec="Spec", emit="Emit", coverage=False, simulate=None,
+                        depth=None, seed=None):
     """Run TLC on `module` with the given constants; every line starting with <<"BEH" is fed to the replayer's
     stdin.  Returns dict(tlc=TlcResult, summary=dict, fails=[dict], harness_rc=int, harness_err=str)."""
     cfg = os.path.join(cfg_dir(), "%s-%s.cfg" % (module, name))
@@ -428,7 +429,8 @@ def generate_and_replay(module, name, constants, exe, exe_args=("replay",), inva
             return True
         return False
     try:
-        res = tlc(module, cfg, workers=workers, timeout=timeout, line_sink=sink, heap=heap, coverage=coverage)
+        res = tlc(module, cfg, workers=workers, timeout=timeout, line_sink=sink, heap=heap, coverage=coverage,
+                  simulate=simulate, depth=depth, seed=seed)
     finally:
         try:
             hp.stdin.close()
